@@ -421,6 +421,9 @@ impl<'a> Engine<'a> {
         let case = || json!({"kind": "codec-mutation", "type": key, "mutation": kind, "detail": detail, "value": val_to_json(v), "bytes": hex(bytes)});
         let out = sut.decode(key, bytes);
         let h = fnv(bytes) ^ fnv(key.as_bytes()) ^ fnv(kind.as_bytes());
+        if r.wants_sample() && bytes.len() < 100 && kind != "suffix" {
+            r.sample(json!({"type": key, "mutation": kind, "detail": detail, "bytes": hex(bytes), "reference_decoder": format!("{:?}", reference.as_ref().map(|(v, rest)| (short(&render_struct(self.schema, def, v)), rest.len()))), "real_decoder": short(&format!("{out:?}"))}));
+        }
         if let Outcome::Panic(p) = &out {
             r.case(h, true);
             r.violation(&format!("{prop_name} {key}: {kind} {}", panic_signature(p)), &format!("decoder panicked on a {kind}-mutated packet: {p}"), case());
